@@ -1,5 +1,6 @@
 import LdarModel.Props.Sim
 import LdarModel.Model.Summary
+import LdarModel.Props.C06
 /-
 The two calendars of the model agree.
 
@@ -70,6 +71,48 @@ theorem ord_lt_iff_dateLt (start : Sched.Date) (h : validDate start) (i j : Nat)
     · exact hij
     · subst hij; exact absurd hlt (dateLt_irrefl _)
     · exact absurd (dateLt_trans hlt (dateOf_strictMono start h j i hij)) (dateLt_irrefl _)
+
+/-! ### C06's calendar hypothesis discharged inside the integrated simulation -/
+
+/-- on the computed calendar the days of a simulation are `Sched.Chrono` (years never decrease): the
+hypothesis of the C06 counting theorems is a theorem of the integrated model, not an assumption -/
+theorem chrono_of_calendar (inp : Inputs) (start : Sched.Date) (hv : validDate start)
+    (hc : ∀ n, inp.date n = dateOf start n) (N : Nat) (ds : List Sched.DayIn)
+    (hd : ds.map (·.date) = (List.range N).map inp.date) : Sched.Chrono ds := by
+  unfold Sched.Chrono
+  have h1 : (ds.map (·.date)).Pairwise (fun a b => a.y ≤ b.y) := by
+    rw [hd, List.pairwise_map]
+    refine List.Pairwise.imp ?_ (List.pairwise_lt_range (n := N))
+    intro i j hij
+    rw [hc i, hc j]
+    exact (dateOf_year_mono start hv i j (Nat.le_of_lt hij)).1
+  rwa [List.pairwise_map] at h1
+
+/-- **C06 "never more than required" in the integrated simulation**: for every world, program, inputs on
+the computed calendar, horizon, and every routine or screening method of the program whose schedule is of the
+routine kind, the completed surveys of a site in a year never exceed the required number — under the one
+remaining C06 proviso (`CompletesOK`: no carried-over survey completes in a year for which the planner
+requires none), stated on the very history the simulation produced -/
+theorem sim_done_le_required (w : World) (prog : Program) (inp : Inputs) (start : Sched.Date)
+    (hv : validDate start) (hcal : ∀ n, inp.date n = dateOf start n) (m : Nat) (c : MethodCfg)
+    (hc : prog[m]? = some c) (hr : c.role ≠ .followUp) (hnd : (schedCfg c).sites.Nodup)
+    (hk : (schedCfg c).kind = .routine) (N : Nat) :
+    ∃ ds : List Sched.DayIn, ds.map (·.date) = (List.range N).map inp.date ∧
+      ((simState w prog inp N).ms.getD m {}).sched = Sched.runDays (schedCfg c) ds ∧
+      (Sched.CompletesOK (schedCfg c) Sched.init ds → ∀ i y,
+        Sched.done ((((simState w prog inp N).ms.getD m {}).sched).pl i) y ≤ Sched.required ((schedCfg c).P i) y) := by
+  obtain ⟨ds, hd, hs⟩ := sim_sched_runDays w prog inp m c hc hr N
+  refine ⟨ds, hd, hs, ?_⟩
+  intro hok i y
+  rw [hs]
+  exact Sched.done_le_required_partial (schedCfg c) hnd hk ds
+    (chrono_of_calendar inp start hv hcal N ds hd) hok i y
+
+/-- non-vacuity: the mobile OGI method of the example program of `Props/Sim.lean` meets the hypotheses of
+`sim_done_le_required` (mobile, not a follow-up method, distinct sites, a valid start date) -/
+example : (schedCfg exOGI).kind = .routine ∧ (schedCfg exOGI).sites.Nodup ∧ exOGI.role ≠ .followUp ∧
+    validDate ⟨2023, 1, 1⟩ := by
+  refine ⟨by decide +kernel, by decide +kernel, by decide +kernel, by unfold validDate; decide +kernel⟩
 
 /-- 1970-01-01 is day 0; 2024-02-29 exists and is followed by March 1 -/
 example : ordOf ⟨1970, 1, 1⟩ = 0 ∧ ordOf ⟨2024, 3, 1⟩ = ordOf ⟨2024, 2, 28⟩ + 2 ∧
